@@ -89,6 +89,9 @@ func H_C05() {
 		return
 	}
 	vScanCheck(db2, c, snap2, &g, "restored snapshot")
+	if delta && db2.DeltaRestored > 0 {
+		vReach("delta-item-restored") // an item reached the restored snapshot only through a delta file
+	}
 	// the restored instance obeys the set semantics afterwards
 	w2 := db2.NewWriter()
 	w2.rand = vRand("w2")
